@@ -415,3 +415,101 @@ func TestVerif_C13_chan(t *testing.T) {
 	}
 	s.Finish()
 }
+
+// TestVerif_C13_preset: the convenience setters (Client.EnableDumpAll…, Request.EnableDump…),
+// in random sequences, against the model's preset table: which parts end up enabled, Async,
+// and the default writer.
+func TestVerif_C13_preset(t *testing.T) {
+	s := verifh.New(t, "C13", "preset",
+		"sequences of 1..4 convenience setters on a fresh client (EnableDumpAll, …WithoutRequestBody, …WithoutResponseBody, …WithoutResponse, …WithoutRequest, …WithoutHeader, …WithoutBody, EnableDumpAllAsync, EnableDumpAllTo) or a fresh request (EnableDump, EnableDumpWithout…, EnableDumpTo); the flags / Async / Output() of the resulting dumper are compared with the model's presets folded over the default options; non-trivial = at least two setters")
+	r := s.Rand()
+	cnt := c13Counter{}
+	log := &c13Log{}
+	n := verifh.N(600, 20000)
+	for c := 0; c < n; c++ {
+		level := verifh.Pick(r, []string{"c", "r"})
+		var seq []int
+		for i, k := 0, 1+r.Intn(4); i < k; i++ {
+			p := r.Intn(9)
+			if p == 8 {
+				p = 100 + r.Intn(5)
+			}
+			if level == "r" && p == 7 {
+				p = 0 // no request-level async setter
+			}
+			seq = append(seq, p)
+		}
+		var d *dump.Dumper
+		var defOut int
+		var stop func()
+		if level == "c" {
+			cl := C()
+			for _, p := range seq {
+				switch p {
+				case 0:
+					cl.EnableDumpAll()
+				case 1:
+					cl.EnableDumpAllWithoutRequestBody()
+				case 2:
+					cl.EnableDumpAllWithoutResponseBody()
+				case 3:
+					cl.EnableDumpAllWithoutResponse()
+				case 4:
+					cl.EnableDumpAllWithoutRequest()
+				case 5:
+					cl.EnableDumpAllWithoutHeader()
+				case 6:
+					cl.EnableDumpAllWithoutBody()
+				case 7:
+					cl.EnableDumpAllAsync()
+				default:
+					cl.EnableDumpAllTo(&c13LogWriter{p, log, false})
+				}
+			}
+			d, defOut = cl.Dump, 1000
+			stop = func() { cl.DisableDumpAll() }
+		} else {
+			rq := C().R()
+			for _, p := range seq {
+				switch p {
+				case 0:
+					rq.EnableDump()
+				case 1:
+					rq.EnableDumpWithoutRequestBody()
+				case 2:
+					rq.EnableDumpWithoutResponseBody()
+				case 3:
+					rq.EnableDumpWithoutResponse()
+				case 4:
+					rq.EnableDumpWithoutRequest()
+				case 5:
+					rq.EnableDumpWithoutHeader()
+				case 6:
+					rq.EnableDumpWithoutBody()
+				default:
+					rq.EnableDumpTo(&c13LogWriter{p, log, false})
+				}
+			}
+			d, _ = rq.Context().Value(dump.DumperKey).(*dump.Dumper)
+			defOut = 30
+			stop = func() {}
+		}
+		ans := "no-dumper"
+		if d != nil {
+			out := c13WriterID(d.Output())
+			if b, ok := d.Output().(*bytes.Buffer); ok && b != nil {
+				out = 30 // the request's own dump buffer
+			}
+			ans = fmt.Sprintf("%d %d %d %d async=%d out=%d", c13B2i(d.RequestHeader()), c13B2i(d.RequestBody()), c13B2i(d.ResponseHeader()), c13B2i(d.ResponseBody()), c13B2i(d.Async()), out)
+		}
+		stop()
+		cnt.add(s, "preset-level="+level)
+		s.Case(fmt.Sprintf("c13preset %d %s", defOut, verifh.IntList(seq)), ans, true, "", len(seq) > 1, fmt.Sprintf("level=%s setters=%v", level, seq))
+	}
+	for _, must := range []string{"preset-level=c", "preset-level=r"} {
+		if cnt[must] == 0 {
+			t.Errorf("generator never reached bucket %q", must)
+		}
+	}
+	s.Finish()
+}
